@@ -1,3 +1,253 @@
-/- C12: property theorems (none yet). -/
+/-
+C12 — Non-semantic configuration does not change guest behaviour.
+
+Part 1 (sizer): theorems about the REGENERATED `Wz.Gen.Memory.memorySizer`/`Validate` (tie A) and the two
+hand-written variants behind the finding switch F11.
+Part 2 (module identity: regenerated shape facts + injectivity of the hashed encoding) and part 3
+(shared cache state machine); lemmas in `Wz.Proofs.C12_*`.
+-/
+import Wz.Model.Sizer
+import Wz.Proofs.C12_ModuleID
+import Wz.Proofs.C12_Cache
+
 namespace Wz.C12
+open Wz.Gen.Memory Wz.Model.Memory Wz.Model.Sizer
+
+/-! ## Part 1 — memory capacity from max -/
+
+/-- Tie of the finding switch: the sizer regenerated from /repo on this run is exactly one of the two
+variants (as-is = F11 present, or repaired). A tree that matches neither breaks this obligation. -/
+theorem sizer_matches_variant :
+    (∀ l c m x, memorySizer l c m x = sizerAsIs l c m x) ∨
+    (∀ l c m x, memorySizer l c m x = sizerFixed l c m x) := by
+  first
+  | (left; intro l c m x; cases x <;> cases c <;> simp [memorySizer, sizerAsIs]; done)
+  | (right; intro l c m x; cases x <;> cases c <;> simp [memorySizer, sizerFixed]; done)
+
+/-- `Validate` (regenerated) accepts exactly the natural-number constraints. -/
+theorem validate_none_iff (l a b c : BitVec 32) :
+    Validate l a b c = none ↔ (c.toNat ≤ l.toNat ∧ a.toNat ≤ l.toNat ∧ a.toNat ≤ c.toNat ∧
+      a.toNat ≤ b.toNat ∧ b.toNat ≤ l.toNat) := by
+  unfold Validate
+  simp only [BitVec.ult, decide_eq_true_eq]
+  repeat' split
+  all_goals (simp; try omega)
+
+theorem decodeWith_eq (sz) (l : BitVec 32) (c : Bool) (m : BitVec 32) (x) :
+    decodeWith sz l c m x =
+      if Validate l (sz l c m x).1 (sz l c m x).2.1 (sz l c m x).2.2 = none
+      then some ((sz l c m x).1, (sz l c m x).2.2) else none := by
+  unfold decodeWith
+  simp only
+  split <;> simp_all
+
+/-- FULL STRENGTH (repaired variant): for every 32-bit limit, minimum and optional maximum,
+`WithMemoryCapacityFromMax` changes neither acceptance nor the accepted (min, max). -/
+theorem sizerFixed_capacity_independent (limit minP : BitVec 32) (maxP : Option (BitVec 32)) :
+    CapacityIndependent sizerFixed limit minP maxP := by
+  unfold CapacityIndependent
+  rw [decodeWith_eq, decodeWith_eq]
+  simp only [validate_none_iff]
+  have k : (65536#32 : BitVec 32).toNat = 65536 := by decide
+  cases maxP with
+  | none => simp [sizerFixed]
+  | some mx =>
+    by_cases h1 : mx.toNat ≤ 65536 <;> by_cases h2 : limit.toNat < mx.toNat <;>
+      simp [sizerFixed, BitVec.ult, BitVec.ule, k, h1, h2, Nat.not_lt.mpr, Nat.lt_of_not_le] <;>
+      (repeat' split) <;> first | rfl | (exfalso; omega) | omega
+
+/-- F11 (as-is variant): min 1, max 10, limit 5 is accepted and clamped without the option and
+rejected with it. Proof by evaluation of the model (a witness, not a sample test). -/
+theorem capfrommax_witness :
+    decodeWith sizerAsIs 5#32 false 1#32 (some 10#32) = some (1#32, 5#32) ∧
+    decodeWith sizerAsIs 5#32 true 1#32 (some 10#32) = none ∧
+    ¬ CapacityIndependent sizerAsIs 5#32 1#32 (some 10#32) := by
+  refine ⟨by decide, by decide, by decide⟩
+
+/-- PARTIAL (as-is variant): the option is behaviour-neutral whenever there is no declared maximum, or
+it is within the limit, or it is invalid (> 65536; rejected either way).
+Missing for the full statement: declared maxima in (limit, 65536] — exactly `capfrommax_witness`. -/
+theorem sizerAsIs_capacity_independent_partial (limit minP : BitVec 32) (maxP : Option (BitVec 32))
+    (h : ∀ mx, maxP = some mx → mx.toNat ≤ limit.toNat ∨ 65536 < mx.toNat) :
+    CapacityIndependent sizerAsIs limit minP maxP := by
+  unfold CapacityIndependent
+  rw [decodeWith_eq, decodeWith_eq]
+  simp only [validate_none_iff]
+  have k : (65536#32 : BitVec 32).toNat = 65536 := by decide
+  cases maxP with
+  | none => simp [sizerAsIs]
+  | some mx =>
+    have h' := h mx rfl
+    by_cases h1 : mx.toNat ≤ 65536 <;> by_cases h2 : limit.toNat < mx.toNat <;>
+      simp [sizerAsIs, BitVec.ult, k, h1, h2, Nat.not_lt.mpr, Nat.lt_of_not_le] <;>
+      (repeat' split) <;> first | rfl | (exfalso; omega) | omega
+
+/-- non-vacuity of the hypothesis of the partial theorem: a declared max within the limit. -/
+example : ∀ mx, (some 3#32 : Option (BitVec 32)) = some mx → mx.toNat ≤ (5#32 : BitVec 32).toNat ∨ 65536 < mx.toNat := by
+  intro mx h; cases h; left; decide
+
+/-- The property statement ON THE REGENERATED DEFINITION, adaptive to the tree (finding switch):
+either the regenerated sizer is capacity-independent for all inputs (repaired tree), or it is the
+as-is variant, for which the witness fails and the partial statement holds. -/
+theorem sizer_capacity_independent :
+    (∀ l m x, CapacityIndependent memorySizer l m x) ∨
+    ((¬ CapacityIndependent memorySizer 5#32 1#32 (some 10#32)) ∧
+      ∀ l m x, (∀ mx, x = some mx → mx.toNat ≤ l.toNat ∨ 65536 < mx.toNat) →
+        CapacityIndependent memorySizer l m x) := by
+  rcases sizer_matches_variant with h | h
+  · right
+    have e : memorySizer = sizerAsIs := by funext l c m x; exact h l c m x
+    rw [e]
+    exact ⟨capfrommax_witness.2.2, fun l m x hx => sizerAsIs_capacity_independent_partial l m x hx⟩
+  · left
+    have e : memorySizer = sizerFixed := by funext l c m x; exact h l c m x
+    rw [e]
+    exact sizerFixed_capacity_independent
+
+/-- Whatever the variant, an accepted memory keeps the declared minimum and its max is within the limit
+(on the regenerated definitions; reuses C14's `decodeMemory`). -/
+theorem decodeWith_eq_decodeMemory (l : BitVec 32) (c : Bool) (m : BitVec 32) (x : Option (BitVec 32)) :
+    decodeWith memorySizer l c m x =
+      match decodeMemory l c m x with
+      | .ok r => some (r.1, r.2.2)
+      | .error _ => none := by
+  unfold decodeWith decodeMemory
+  simp only
+  split <;> simp_all
+
+
+/-! ## Part 2 — module identity and the cache keys -/
+
+section ModuleIdentity
+open Wz.Model.ModuleID
+
+/-- Tie A (facts): `AssignModuleID` on this tree hashes exactly: the binary, then per local function its
+index and listener presence, then the termination flag; `runtime.CompileModule` passes exactly
+(binary, listeners, r.ensureTermination); `fileCacheKey` hashes (ID, magic, CPU features).
+Dropping e.g. the termination flag from the ID changes the regenerated list and breaks this `decide`. -/
+theorem id_shape :
+    Wz.Gen.ModuleID.idHashed = expectedIdHashed ∧
+    Wz.Gen.ModuleID.idCallArgs = expectedIdCallArgs ∧
+    Wz.Gen.ModuleID.fileKeyHashed = expectedFileKeyHashed := by decide
+
+/-- Tie A (facts): the values that reach the decoder, the engines' CompileModule, the wazevo front end
+and the interpreter's compiler are exactly those recorded in `CodegenInputs`. A new configuration-dependent
+compiler input breaks this `decide`. -/
+theorem codegen_inputs_shape :
+    Wz.Gen.ModuleID.decodeCallArgs = expectedDecodeCallArgs ∧
+    Wz.Gen.ModuleID.engineCallArgs = expectedEngineCallArgs ∧
+    Wz.Gen.ModuleID.frontendArgs = expectedFrontendArgs ∧
+    Wz.Gen.ModuleID.localFuncArgs = expectedLocalFuncArgs ∧
+    Wz.Gen.ModuleID.derivedInputs = expectedDerivedInputs ∧
+    Wz.Gen.ModuleID.interpCompilerArgs = expectedInterpCompilerArgs := by decide
+
+/-- FULL STRENGTH (model; SHA-256 injective): two compile requests for the same binary with the same
+module ID agree on everything the generated code's semantics may depend on — for every number of
+functions, every listener-presence vector, either termination flag. -/
+theorem key_determines_codegen (H : List Nat → Nat) (hH : Function.Injective H) (c₁ c₂ : Req)
+    (hb : c₁.bin = c₂.bin) (h : moduleID H c₁ = moduleID H c₂) : codegenRelevant c₁ = codegenRelevant c₂ := by
+  have := Wz.Proofs.C12.preimage_inj_same_bin c₁ c₂ hb (hH h)
+  simp only [codegenRelevant, hb, this.1, this.2]
+
+/-- The same across binaries of equal length. -/
+theorem key_determines_codegen_samelen (H : List Nat → Nat) (hH : Function.Injective H) (c₁ c₂ : Req)
+    (hl : c₁.bin.length = c₂.bin.length) (h : moduleID H c₁ = moduleID H c₂) :
+    codegenRelevant c₁ = codegenRelevant c₂ := by
+  have := Wz.Proofs.C12.preimage_inj_same_len c₁ c₂ hl (hH h)
+  simp only [codegenRelevant, this.1, this.2.1, this.2.2]
+
+/-- PARTIAL across binaries of different length: the hashed encoding has no length prefix, so it is not
+injective even for an injective hash — a binary that ends with the bytes of a listener record collides
+with the shorter binary compiled with one listener. (Model-level observation; such a longer byte string
+would also have to decode as a valid module.) -/
+theorem preimage_collision_witness :
+    let r₁ : Req := { bin := [9], listeners := some [some 1], term := false, memLimit := 1, capFromMax := false,
+                      debugInfo := false, customSections := false, hasDwarf := false }
+    let r₂ : Req := { r₁ with bin := [9, 0, 0, 0, 0, 1], listeners := none }
+    preimage r₁ = preimage r₂ ∧ codegenRelevant r₁ ≠ codegenRelevant r₂ := by decide
+
+/-- The file-cache key determines the module ID (and the CPU feature word). -/
+theorem filekey_determines_id (H : List Nat → Nat) (hH : Function.Injective H) (cpu₁ cpu₂ : Nat) (c₁ c₂ : Req)
+    (h : fileKey H cpu₁ c₁ = fileKey H cpu₂ c₂) : moduleID H c₁ = moduleID H c₂ ∧ cpu₁ = cpu₂ := by
+  have := hH h
+  simp only [magic, List.cons_append, List.nil_append, List.cons.injEq, true_and, and_true] at this
+  exact this
+
+/-- What the key does NOT determine (by design): the decode options and the source-info flag. Two requests
+with the same ID whose compiler inputs differ in `needSourceInfo`, capacity and custom sections. That the
+generated code's behaviour does not depend on them is the modelling assumption checked by the lattice run. -/
+theorem key_ignores_nonsemantic_witness (H : List Nat → Nat) :
+    let r₁ : Req := { bin := [0, 97, 115, 109], listeners := none, term := false, memLimit := 5, capFromMax := false,
+                      debugInfo := true, customSections := false, hasDwarf := true }
+    let r₂ : Req := { r₁ with capFromMax := true, debugInfo := false, customSections := true }
+    moduleID H r₁ = moduleID H r₂ ∧ codegenInputs r₁ ≠ codegenInputs r₂ ∧ codegenRelevant r₁ = codegenRelevant r₂ := by
+  refine ⟨rfl, by decide, rfl⟩
+
+/-- non-vacuity: two requests that differ only in the termination flag get different preimages. -/
+example :
+    let r₁ : Req := { bin := [1, 2], listeners := some [some 4, none], term := false, memLimit := 5, capFromMax := false,
+                      debugInfo := true, customSections := false, hasDwarf := false }
+    preimage r₁ ≠ preimage { r₁ with term := true } := by decide
+
+end ModuleIdentity
+
+/-! ## Part 3 — the shared cache -/
+
+section Cache
+open Wz.Model.Cache Wz.Proofs.C12Cache
+
+variable {K C : Type} [DecidableEq K]
+
+/-- PARTIAL (as-is code, and every variant): over ANY history of compiles / instantiates / closes by any
+number of runtimes sharing one cache (memory + optional disk), with a sound key, every instantiation that
+succeeds runs exactly the code a fresh compile of that request would generate.
+Missing for the full statement (see the two witnesses): listener identity (F12) and availability (N1). -/
+theorem cache_refines_fresh_partial (P : Params K C) (hk : KeySound P) (v : Variant) (ops : List Op)
+    (i rt b : Nat) (c : C) (l : Lst) (hop : ops[i]? = some (Op.instantiate rt b))
+    (hout : (run P v St.init ops)[i]? = some (Out.ran c l)) : c = P.code rt b :=
+  run_code P hk v ops St.init (codeSound_init P) i rt b c l hop hout
+
+/-- FULL STRENGTH (repaired variant: listeners re-bound per runtime, eviction only when unreferenced):
+over any history the shared cache is observationally equal to the specification in which nothing is shared. -/
+theorem cache_refines_fresh_repaired (P : Params K C) (hk : KeySound P) (ops : List Op) :
+    run P repaired St.init ops = specRun P [] ops :=
+  repaired_run P hk ops St.init (codeSound_init P) (live_init P)
+
+/-- … and so is the private (uncached) configuration, hence shared = private for the repaired variant. -/
+theorem shared_eq_private_repaired (P : Params K C) (hk : KeySound P) (ops : List Op) :
+    run P repaired St.init ops = run (privateParams P) repaired St.init ops := by
+  rw [cache_refines_fresh_repaired P hk, cache_refines_fresh_repaired (privateParams P) (privateParams_keySound P hk),
+    specRun_private]
+
+/-- two runtimes with the same key-relevant settings, each with its own listener object -/
+def twoRuntimes : Params Nat Nat :=
+  { key := fun _ b => b, code := fun _ b => b, lst := fun rt _ => [some rt], useDisk := false }
+
+/-- non-vacuity of `KeySound`. -/
+example : KeySound twoRuntimes := by intro _ _ _ _ h; exact h
+
+/-- F12 (as-is): runtime 0 compiles, runtime 1 compiles the same binary (in-memory hit) and instantiates:
+the instance's events go to runtime 0's listener; uncached, they go to runtime 1's. The code is the same. -/
+theorem listener_identity_witness :
+    let ops := [Op.compile 0 7, Op.compile 1 7, Op.instantiate 1 7]
+    run twoRuntimes asIs St.init ops = [.compiled, .compiled, .ran 7 [some 0]] ∧
+    run (privateParams twoRuntimes) asIs St.init ops = [.compiled, .compiled, .ran 7 [some 1]] ∧
+    specRun twoRuntimes [] ops = [.compiled, .compiled, .ran 7 [some 1]] := by decide
+
+/-- N1 (as-is): runtime 0 closes ITS compiled module; runtime 1's compiled module of the same binary can
+no longer be instantiated. Uncached, it can. -/
+theorem close_evicts_witness :
+    let ops := [Op.compile 0 7, Op.compile 1 7, Op.closeCompiled 0 7, Op.instantiate 1 7]
+    run twoRuntimes asIs St.init ops = [.compiled, .compiled, .closed, .failed] ∧
+    run (privateParams twoRuntimes) asIs St.init ops = [.compiled, .compiled, .closed, .ran 7 [some 1]] := by decide
+
+/-- A file-cache hit re-binds the listeners (as-is): after the in-memory entry is gone, runtime 1's compile
+hits the disk and its instance reports to runtime 1's listener. -/
+theorem disk_hit_rebinds :
+    let P := { twoRuntimes with useDisk := true }
+    run P asIs St.init [Op.compile 0 7, Op.closeCompiled 0 7, Op.compile 1 7, Op.instantiate 1 7] =
+      [.compiled, .closed, .compiled, .ran 7 [some 1]] := by decide
+
+end Cache
+
 end Wz.C12
